@@ -2297,12 +2297,8 @@ func tokenTypes() []simplexer.TokenType{
 		t(LT, methodOps["lt"]),
 		t(ADD_CHAIN, `[&~=]`),
 		t(MAIN_CHAIN, `[\.@$]`),
-		t(IF, `if`),
-		t(ELSE, `else`),
-		t(RETURN, `return`),
-		t(YIELD, `yield`),
-		t(RAISE, `raise`),
-		t(DEFER, `defer`),
+		// NOTE: reserved words are lexed as IDENT and classified in Lex()
+		// (otherwise idents starting with them like `iffy` are split)
 		t(IDENT, ident),
 		t(PRIVATE_IDENT, fmt.Sprintf(`_+(%s)?`, ident)),
 	}
@@ -2378,7 +2374,23 @@ func (l *Lexer) Lex(lval *yySymType) int {
 	}
 
 	l.Source = newSource
+
+	if token.Type.GetID() == IDENT {
+		if id, ok := reservedWords[token.Literal]; ok {
+			return id
+		}
+	}
+
 	return int(token.Type.GetID())
+}
+
+var reservedWords = map[string]int{
+	"if":     IF,
+	"else":   ELSE,
+	"return": RETURN,
+	"yield":  YIELD,
+	"raise":  RAISE,
+	"defer":  DEFER,
 }
 
 func (l *Lexer) unknownTokenErrMsg(err *simplexer.UnknownTokenError) string {
